@@ -128,6 +128,8 @@ def kmeans_section(ck):
         add("mstep_agrees %s %s %s %s %s" % (cnat(p), cmat(Xl), cnatl(lab), cnat(k), cmat(c0l)),
             ("mstep", rep, None))
         prevW = None
+        gm0 = [sum(F(int(v)) for v in Xi[:, j]) / n for j in range(p)]
+        thr_exact = delta * sum(sum((F(int(v)) - gm0[j]) ** 2 for v in Xi[:, j]) / n for j in range(p)) / p
         all_centres = list(c0l)
         runs = []
         for mi in maxiters:
@@ -163,8 +165,16 @@ def kmeans_section(ck):
                 ck.fail("kmeans/returned-J-below-inertia", "returned J %s < inertia %s of the returned solution" % (J, W), r2)
             if isinstance(J, float) and np.isinf(J):
                 ninf += 1
-                ck.fail("kmeans/returned-J/converged-in-first-iteration",
-                        "_kmeans returns J=inf: X=%s k=%d Labels=%s maxiter=%d" % (Xl, k, lab, mi), r2)
+                # structural condition of the known finding: the very first iteration already meets the stopping rule
+                c1 = runs[0][1]
+                moved = sum((a - b) ** 2 for ra, rb in zip(c0l, c1) for a, b in zip(ra, rb))
+                if moved < thr_exact:
+                    ck.fail("kmeans/returned-J/converged-in-first-iteration",
+                            "_kmeans returns J=inf: X=%s k=%d Labels=%s maxiter=%d" % (Xl, k, lab, mi), r2)
+                else:
+                    ck.fail("kmeans/returned-J-inf/first-iteration-not-converged",
+                            "_kmeans returns J=inf although its first iteration does not meet the stopping rule: X=%s k=%d Labels=%s maxiter=%d"
+                            % (Xl, k, lab, mi), r2)
             add("kmeans_agrees %s %s %s %s %s %s %s %s %s %s" % (st, cnat(p), cnat(k), cmat(Xl), cnatl(lab), cnat(mi),
                                                            cq(delta), cmat(Cl), cnatl(zl), coq_oq(J)),
                 ("kmeans", r2, None))
@@ -577,6 +587,10 @@ def hierarchical_section(ck):
                     ck.fail("ward/raises/int-of-1-element-array", "ward raised %s: %s (edges %s, features %s)" % (type(e).__name__, e, Ed, featl), rep)
                 else:
                     ck.fail("ward/raises/%s" % type(e).__name__, "ward raised %s: %s" % (type(e).__name__, e), rep)
+                if exact and not int1 and n <= 16:
+                    Gd = clist(["(%s,%s)" % (cnat(a), cnat(b)) for a, b in Ed])
+                    add("match ward true %s %s %s %s with Some (p, h) => ward_check %s %s %s %s p h | None => false end" % (
+                        cnat(p), cnat(n), Gd, cmat(featl), cnat(p), cnat(n), Gd, cmat(featl)), ("ward-model-with-int-fix-certificate", rep))
                 if exact:
                     add("ward_raises %s %s %s %s %s" % (i1, cnat(p), cnat(n), clist(["(%s,%s)" % (cnat(a), cnat(b)) for a, b in Ed]), cmat(featl)), ("ward", rep))
                 continue
@@ -592,6 +606,10 @@ def hierarchical_section(ck):
             add("ward_agrees %s %s %s %s %s %s %s" % (i1, cnat(p), cnat(n), clist(["(%s,%s)" % (cnat(a), cnat(b)) for a, b in Ed]),
                                                  cmat(featl), cnatl(parents), "[%s]" % "; ".join(cq(F(h)) for h in height)),
                 ("ward", rep))
+        Gund = clist(["(%s,%s)" % (cnat(a), cnat(b)) for a, b in E])
+        if exact and n <= ck.n(24, 40):
+            add("ward_check %s %s %s %s %s %s" % (cnat(p), cnat(n), Gund, cmat(featl), cnatl(parents),
+                                                "[%s]" % "; ".join(cq(F(h)) for h in height)), ("ward-certificate", rep))
         if leaves is None:
             continue
         if not t.check_compatible_height():
@@ -643,6 +661,10 @@ def hierarchical_section(ck):
                     pq, hq = [int(v) for v in tq.parents], [float(v) for v in tq.height]
                     ck.count(("wq", n, tuple(E), tuple(map(tuple, featl))), nontrivial=len(E) > 0, bucket="ward_quick")
                     dendrogram_oracle(ck, "ward_quick", n, E, featl, pq, hq, exact, False, True, dict(rep, parents=pq, height=hq))
+                    if exact and n <= 24:
+                        add("dendro_check %s %s %s %s %s %s" % (cnat(p), cnat(n), clist(["(%s,%s)" % (cnat(a), cnat(b)) for a, b in E]), cmat(featl),
+                                                              cnatl(pq), "[%s]" % "; ".join(cq(F(h)) for h in hq)),
+                            ("ward_quick-certificate", dict(rep, parents=pq, height=hq)))
                 except Exception as e:  # noqa
                     if isinstance(e, TypeError) and "0-dimensional" in str(e):
                         ck.fail("ward_quick/raises/int-of-1-element-array", "ward_quick raised %s: %s" % (type(e).__name__, e), rep)
